@@ -88,6 +88,13 @@ def _decode_reference(ref):
     return html5[body]
 
 
+@ground("C15")
+def c15_encode_then_decode_every_code_point():
+    r = encode_then_decode_every_code_point()
+    r["id"] = r["id"].replace("C14/", "C15/")
+    return r
+
+
 @ground("C14")
 def encode_then_decode_every_code_point():
     from html5lib.serializer import htmlentityreplace_errors
